@@ -205,12 +205,12 @@ def filter_obj(op, size_ty=INT):
                    allow_missing=BOOL)
 
 
-def _find_candidates(op):
+def _find_candidates(op, size_ty=INT):
     class FindCandidates(Case):
         """exact: the returned count of row r is the number of probe tokens occurring in row r's
         token list; rows with count 0 are absent"""
-        name = op
-        params = OD([('self', filter_obj(op)), ('probe_tokens', LV), ('inverted_index', index_obj())])
+        name = op + ('' if size_ty == INT else '-float-size')
+        params = OD([('self', filter_obj(op, size_ty)), ('probe_tokens', LV), ('inverted_index', index_obj())])
         returns = CAND
         locals = {'candidate_overlap': CAND}
         inline = (QI + 'probe',)
@@ -263,7 +263,8 @@ def _find_candidates(op):
     return FindCandidates()
 
 
-register(QF + 'find_candidates', [_find_candidates(op) for op in OPS3], props=('C01', 'C02', 'C06', 'C14'))
+register(QF + 'find_candidates', [_find_candidates(op) for op in OPS3] + [_find_candidates('>=', FLOAT)],
+         props=('C01', 'C02', 'C06', 'C14'))
 
 
 # ============================================================================ simfunctions.overlap
@@ -321,14 +322,14 @@ class OverlapSplitCfg(SplitCfg):
     qualname = 'py_stringsimjoin.filter.overlap_filter._filter_tables_split'
     props = ('C01', 'C02', 'C04', 'C06', 'C11', 'C14')
 
-    def params(self, l_none, r_none, op='>='):
+    def params(self, l_none, r_none, op='>=', size_ty=INT):
         return OD([('ltable', ROWS), ('rtable', ROWS), ('l_columns', LV), ('r_columns', LV),
                    ('l_key_attr', VAL), ('r_key_attr', VAL), ('l_filter_attr', VAL), ('r_filter_attr', VAL),
-                   ('overlap_filter', filter_obj(op)),
+                   ('overlap_filter', filter_obj(op, size_ty)),
                    ('l_out_attrs', NONE if l_none else LV), ('r_out_attrs', NONE if r_none else LV),
                    ('l_out_prefix', VAL), ('r_out_prefix', VAL), ('out_sim_score', BOOL), ('show_progress', BOOL)])
 
-    def specs(self, c, op='>='):
+    def specs(self, c, op='>=', size_ty=INT):
         class Sp(object):
             pass
         sp = Sp()
@@ -341,24 +342,24 @@ class OverlapSplitCfg(SplitCfg):
         sp.Tl = lambda a: S.toks(rs, L_get(LV, at(sp.lt, a), lj))
         sp.Tr = lambda b: S.toks(rs, L_get(LV, at(sp.rt, b), rj))
         sp.o = lambda a, b: S.isectV(sp.Tl(a), sp.Tr(b))
-        size = c.f(f, 'overlap_size')
-        sp.must = lambda a, b: OPF[op](sp.o(a, b), size)       # exact: must == may  (C06)
+        size = R_(c.f(f, 'overlap_size'))
+        sp.must = lambda a, b: OPF[op](z3.ToReal(sp.o(a, b)), size)       # exact: must == may  (C06)
         sp.may = sp.must
         sp.score = lambda a, b: val_of_int(sp.o(a, b))
         sp.lj, sp.rj, sp.rs = lj, rj, rs
         return sp
 
-    def requires(self, c, sp, lo, ro, op='>='):
+    def requires(self, c, sp, lo, ro, op='>=', size_ty=INT):
         r = z3.Int('r!oreq')
         f = c.p('overlap_filter')
-        return [('set-mode', sp.rs), ('overlap-size-positive', c.f(f, 'overlap_size') > 0),
+        return [('set-mode', sp.rs), ('overlap-size-positive', R_(c.f(f, 'overlap_size')) > 0),
                 ('filter-values-present', z3.And(
                     FA([r], z3.Implies(z3.And(r >= 0, r < ln(sp.lt)),
                                        z3.Not(N.val_isnull(L_get(LV, at(sp.lt, r), sp.lj)))), [at(sp.lt, r)]),
                     FA([r], z3.Implies(z3.And(r >= 0, r < ln(sp.rt)),
                                        z3.Not(N.val_isnull(L_get(LV, at(sp.rt, r), sp.rj)))), [at(sp.rt, r)])))]
 
-    def setup(self, c, op='>='):
+    def setup(self, c, op='>=', size_ty=INT):
         return spec_axioms()
 
     def appends(self):
@@ -367,9 +368,9 @@ class OverlapSplitCfg(SplitCfg):
     def loops(self):
         return {'0': done_rows, '0.0': done_keys}
 
-    def extra_hooks(self, op='>='):
+    def extra_hooks(self, op='>=', size_ty=INT):
         def after_fc(c):
-            sp = self.specs(c, op=op)
+            sp = self.specs(c, op=op, size_ty=size_ty)
             ri = c.loop_idx[-1]
             co = c.call_result
             a = z3.Int('a!ofc')
@@ -383,5 +384,145 @@ class OverlapSplitCfg(SplitCfg):
 _ocfg = OverlapSplitCfg()
 register(_ocfg.qualname,
          make_split_cases(_ocfg, [('%s-%s-%s' % (op, 'None' if a else 'list', 'None' if b else 'list'), a, b, dict(op=op))
-                                  for op in OPS3 for a in (False, True) for b in (False, True)]),
+                                  for op in OPS3 for a in (False, True) for b in (False, True)] +
+                         [('>=-None-None-float-size', True, True, dict(op='>=', size_ty=FLOAT))]),
          props=_ocfg.props)
+
+
+# ============================================================================ OverlapFilter.filter_tables
+from .drivers import DriverCfg, driver_cases  # noqa
+from pyvc.pandas_model import DF  # noqa
+
+
+class OverlapTablesCfg(DriverCfg):
+    qualname = QF + 'filter_tables'
+    core_target = '_filter_tables_split'
+    core_qual = 'py_stringsimjoin.filter.overlap_filter._filter_tables_split'
+    props = ('C04', 'C06', 'C08', 'C10', 'C11', 'C15')
+
+    def params(self, l_none, r_none, op='>=', size_ty=INT):
+        return OD([('self', filter_obj(op, size_ty)), ('ltable', DF), ('rtable', DF), ('l_key_attr', VAL), ('r_key_attr', VAL),
+                   ('l_filter_attr', VAL), ('r_filter_attr', VAL),
+                   ('l_out_attrs', NONE if l_none else LV), ('r_out_attrs', NONE if r_none else LV),
+                   ('l_out_prefix', VAL), ('r_out_prefix', VAL), ('out_sim_score', BOOL), ('n_jobs', INT),
+                   ('show_progress', BOOL)])
+
+    def allow_missing(self, c):
+        return c.f(c.p('self'), 'allow_missing')
+
+    def extra_requires(self, c, op='>=', size_ty=INT):
+        f = c.p('self')
+        return [('object-invariant-overlap-size-positive', R_(c.f(f, 'overlap_size')) > 0),
+                # C06 is stated for a set-returning tokenizer (overlap_join arranges it); a bag
+                # tokenizer counts repeated tokens
+                ('set-mode', c.f(c.field(f, 'tokenizer'), 'return_set'))]
+
+
+_otc = OverlapTablesCfg()
+register(_otc.qualname,
+         driver_cases(_otc, [('%s-%s-%s' % (op, 'None' if a else 'list', 'None' if b else 'list'), a, b, dict(op=op))
+                             for (op, a, b) in [('>=', False, False), ('>=', True, True), ('>=', False, True),
+                                                ('>=', True, False), ('>', True, True), ('=', False, False)]] +
+                      [('>=-None-None-float-size', True, True, dict(op='>=', size_ty=FLOAT))],
+                      bad_extra=dict(op='>=')),
+         props=_otc.props)
+
+
+# ============================================================================ overlap_join_py
+from .rowspec import header_facts, out_header_theorem  # noqa
+
+OJ = 'py_stringsimjoin.join.overlap_join_py.overlap_join_py'
+
+
+def _overlap_join(op, l_none, r_none, size_ty=INT, tables=(True, True), tok_ok=True):
+    class OverlapJoin(Case):
+        """overlap_join_py = OverlapFilter(tokenizer in set mode, threshold, comp_op, allow_missing)
+        .filter_tables(...); whatever happens, the tokenizer's return_set flag is restored."""
+        name = '%s-%s-%s%s%s%s' % (op, 'None' if l_none else 'list', 'None' if r_none else 'list',
+                                   '' if size_ty == INT else '-float-threshold',
+                                   '' if tables == (True, True) else '-table-not-a-DataFrame',
+                                   '' if tok_ok else '-tokenizer-not-a-Tokenizer')
+        params = OD([('ltable', DF if tables[0] else VAL), ('rtable', DF if tables[1] else VAL),
+                     ('l_key_attr', VAL), ('r_key_attr', VAL), ('l_join_attr', VAL), ('r_join_attr', VAL),
+                     ('tokenizer', TOKENIZER if tok_ok else VAL), ('threshold', size_ty), ('comp_op', vstr(op)),
+                     ('allow_missing', BOOL), ('l_out_attrs', NONE if l_none else LV),
+                     ('r_out_attrs', NONE if r_none else LV), ('l_out_prefix', VAL), ('r_out_prefix', VAL),
+                     ('out_sim_score', BOOL), ('n_jobs', INT), ('show_progress', BOOL)])
+        returns = DF
+
+        @staticmethod
+        def outs(c):
+            return (None if l_none else c.p('l_out_attrs'), None if r_none else c.p('r_out_attrs'))
+
+        def requires(self, c):
+            if tables != (True, True) or not tok_ok:
+                return []
+            lt, rt = c.p('ltable'), c.p('rtable')
+            s_ = z3.Const('s!dom', ValSort)
+            rs = z3.Bool('rs!dom')
+            from .drivers import no_id_collision
+            lo, ro = self.outs(c)
+            return [('table-size-domain', z3.And(ln(rec_field(lt, 'rows')) <= S.MAXTOK,
+                                                 ln(rec_field(rt, 'rows')) <= S.MAXTOK)),
+                    ('token-count-domain', FA([rs, s_], L_len(LV, S.toks(rs, s_)) <= S.MAXTOK, [S.toks(rs, s_)])),
+                    ('output-names-do-not-collide-with-_id', no_id_collision(c, lo, ro, c['out_sim_score']))]
+
+        def raises(self, c):
+            if not tok_ok:
+                return {'TypeError': z3.BoolVal(True)}
+            thr_ok = R_(c['threshold']) > 0
+            op_ok = z3.BoolVal(op in OPS3)
+            if tables != (True, True):
+                # the filter constructor validates threshold and operator first
+                return {'AssertionError': z3.Not(z3.And(thr_ok, op_ok)), 'TypeError': z3.And(thr_ok, op_ok)}
+            cfg = _otc
+            lo, ro = self.outs(c)
+
+            class View(object):      # the documented preconditions in terms of this function's parameter names
+                pass
+            pre = z3.And(thr_ok, op_ok, _join_pre(c, lo, ro))
+            return {'AssertionError': z3.Not(pre)}
+
+        def ensures(self, c, res):
+            lo, ro = self.outs(c)
+            lkey, rkey = c['l_key_attr'], c['r_key_attr']
+            dl = None if l_none else V(LV, S.dedup(lo.t, lkey))
+            dr = None if r_none else V(LV, S.dedup(ro.t, rkey))
+            rows, cols = rec_field(res, 'rows'), rec_field(res, 'cols')
+            k = z3.Int('k')
+            sc = c['out_sim_score']
+            fs = []
+            for with_score in (True, False):
+                for (lab, f) in header_facts(cols, lkey, rkey, dl, dr, c['l_out_prefix'], c['r_out_prefix'],
+                                             True, with_score):
+                    fs.append((lab + ('-with-score' if with_score else '-no-score'),
+                               z3.Implies(sc if with_score else z3.Not(sc), f)))
+            fs.append(('_id-is-0..n-1', FA([k], z3.Implies(z3.And(k >= 0, k < ln(rows)),
+                                                           L_get(LV, at(rows, k), ival(0)) == val_of_int(k)),
+                                           [at(rows, k)])))
+            return fs
+    return OverlapJoin()
+
+
+def _join_pre(c, lo, ro):
+    from . import validation as VC2
+    from pyvc.pandas_model import col_index as ci
+    lt, rt = c.p('ltable'), c.p('rtable')
+    lcols, rcols = rec_field(lt, 'cols'), rec_field(rt, 'cols')
+    ldt = L_get(LV, R_get(DF, lt.t, 'dtypes'), ci(lcols.t, c['l_join_attr']))
+    rdt = L_get(LV, R_get(DF, rt.t, 'dtypes'), ci(rcols.t, c['r_join_attr']))
+    from .rowspec import attrs_in as ai
+    return z3.And(S.in_list(lcols, c['l_key_attr']), S.in_list(rcols, c['r_key_attr']),
+                  S.in_list(lcols, c['l_join_attr']), S.in_list(rcols, c['r_join_attr']),
+                  VC2.string_typed(ldt), VC2.string_typed(rdt),
+                  ai(lo, lcols) if lo is not None else z3.BoolVal(True),
+                  ai(ro, rcols) if ro is not None else z3.BoolVal(True),
+                  VC2.key_ok(lt, c['l_key_attr']), VC2.key_ok(rt, c['r_key_attr']))
+
+
+register(OJ, [_overlap_join('>=', a, b) for a in (False, True) for b in (False, True)] +
+         [_overlap_join('>', True, True), _overlap_join('=', False, False), _overlap_join('<=', True, True),
+          _overlap_join('>=', True, True, FLOAT),
+          _overlap_join('>=', True, True, INT, (False, True)), _overlap_join('>=', True, True, INT, (True, False)),
+          _overlap_join('>=', True, True, INT, (True, True), False)],
+         props=('C01', 'C02', 'C08', 'C10', 'C11', 'C12', 'C15'))
